@@ -58,7 +58,8 @@ PROVED = ('For every start-up script, every peer start state and every interleav
           'arbitrary earlier world, safelink mode, needs_resending and frame stamping depend on that start-up alone. Round 5: on a '
           'dongle shared by several instances and scans every SEND_PACKET leaves tuned to its own instance\'s setting, for all '
           'command histories; the cached-tuple variant is refuted. Round 6: with a fresh result per transfer every instance reads '
-          'exactly the answers of its own transfers in order under every interleaving; a result cell shared per dongle is refuted.')
+          'exactly the answers of its own transfers in order under every interleaving; a result cell shared per dongle is refuted. Wave 12: the statistics update run inside the radio loop never raises '
+          '(HEAD guard structure), the unguarded report is refuted.')
 NOT_PROVED = ('No guarantee when the negotiation is not confirmed but the peer enabled safelink (two generals) nor after an '
               'exception of radio.send_packet (refuted by witness). Not modelled: wall-clock time, pause()/restart(), rate '
               'limiting and relaxation sleeps, the shared-radio multiplexing thread, rate/RSSI/congestion statistics (only '
@@ -648,6 +649,64 @@ def judge_pair(case, res):
     return fails
 
 
+IDLE_DTS = (0.0, 0.05, 0.15, 0.35)
+
+
+def idle_case(rng, maxlen):
+    """a safelink peer that answers with a ZERO-LENGTH ack payload when it has nothing queued, idle phases of
+    0 / 0.05 / 0.15 / 0.35 s (virtual statistics clock) between transmissions, mixed with losses"""
+    evs = []
+    for _ in range(rng.randrange(3, maxlen + 1)):
+        r = rng.random()
+        if r < 0.15:
+            evs.append(['S', _app_hdr(rng), [rng.randrange(256) for _ in range(rng.randrange(0, 4))]])
+        elif r < 0.27:
+            evs.append(['Q', _fw_hdr(rng), [rng.randrange(256) for _ in range(rng.randrange(0, 4))]])
+        elif r < 0.35:
+            evs.append(['R'])
+        elif r < 0.55:
+            evs.append(['I', rng.choice(IDLE_DTS)])
+        else:
+            evs.append(['T', rng.choice('OOOOUA'), []])
+    evs.append(['D'])
+    p0 = dict(P0_STD, empty_idle=1, txq=[[_fw_hdr(rng), 7]] if rng.random() < 0.3 else [])
+    return {'N': rng.choice([2, 3, 100]), 'p0': p0, 'negs': rng.choice([['O'], ['U', 'O'], []]), 'evs': evs, 'family': 'idle'}
+
+
+def idle_cases(ctx):
+    out = []
+    for dt in IDLE_DTS:                      # the smallest: one acknowledged empty answer, an idle phase, another one
+        for pre in ([], [['Q', 0x50, [1]], ['T', 'O', []]]):
+            out.append({'N': 3, 'p0': dict(P0_STD, empty_idle=1), 'negs': ['O'], 'family': 'idle',
+                        'evs': pre + [['T', 'O', []], ['I', dt], ['T', 'O', []], ['S', 0x3c, [1]], ['T', 'U', []], ['D']]})
+    out += [idle_case(ctx.rng, ctx.scale(40, 100)) for _ in range(ctx.scale(40, 600))]
+    return out
+
+
+def host_replay_term(case, sim):
+    """the host model alone on the dongle answers this run produced (the empty-when-idle peer is environment of the
+    oracle only): negotiation answers and per-transmission raw USB answers are replayed into host_session_obs"""
+    us = [None if u is None else list(u) for u in sim.sessions[0]['neg_usb']]
+    while len(us) < 10:
+        us.append([0])
+    evs = []
+    k = 0
+    for e in sim.sessions[0]['executed']:
+        if e[0] == 'S':
+            evs.append('HSubmit %s %s' % (coqrun.z(e[1]), _zl(e[2])))
+        elif e[0] == 'R':
+            evs.append('HRecv')
+        elif e[0] == 'Q':
+            evs.append('HNop')
+        elif e[0] == 'T':
+            evs.append('HTx %s' % _usb(sim.tx[k].get('usb')))
+            k += 1
+        else:
+            raise ValueError(e)
+    return 'host_session_obs %s [%s] [%s] %s' % (coqrun.z(case['N']), '; '.join(_usb(u) for u in us), '; '.join(evs),
+                                                 _b(case.get('close')))
+
+
 def corpus_cases():
     import glob
     import json
@@ -668,6 +727,7 @@ def all_cases(ctx):
     cs += [host_case(ctx.rng, ctx.scale(40, 120)) for _ in range(ctx.scale(110, 3000))]
     cs += multi_cases(ctx)
     cs += shared_cases(ctx)
+    cs += idle_cases(ctx)
     return cs
 
 
@@ -713,7 +773,7 @@ def tie(ctx):
     res = results(ctx)
     dis = []
     terms, exp, idx = [], [], []
-    dist = {'enum': 0, 'random': 0, 'host': 0, 'corpus': 0, 'multi': 0, 'threaded': 0, 'shared': 0, 'transmissions': 0, 'lost': 0, 'not_confirmed': 0,
+    dist = {'enum': 0, 'random': 0, 'host': 0, 'corpus': 0, 'multi': 0, 'threaded': 0, 'shared': 0, 'idle': 0, 'transmissions': 0, 'lost': 0, 'not_confirmed': 0,
             'link_errors': 0, 'max_events': 0}
     seen = set()
     nontriv = 0
@@ -723,8 +783,12 @@ def tie(ctx):
             dis.append({'what': 'the real radio loop raised on a scripted session', 'case': c, 'impl': err, 'model': None})
             continue
         ec = explicit(c, sim)
-        terms.append(coq_term(ec))
-        exp.append(sim.flat_host if c.get('host_only') else sim.flat)
+        if c.get('family') == 'idle':
+            terms.append(host_replay_term(c, sim))
+            exp.append(sim.flat_host)
+        else:
+            terms.append(coq_term(ec))
+            exp.append(sim.flat_host if c.get('host_only') else sim.flat)
         idx.append(i)
         dist['transmissions'] += len(sim.tx)
         dist['lost'] += sum(1 for t in sim.tx if t.get('ack') is not True)
@@ -813,6 +877,19 @@ def tie(ctx):
         pexp.append([sm, ln])
         if val is None or abs(val - float(sm) / ln * 10) > 1e-9:
             dis.append({'what': 'link_quality is not sum/len*10 of the window', 'retries': rs[:20], 'impl': val, 'model': [sm, ln]})
+    # ---- rate/congestion counters of RadioLinkStatistics (report step and its divisions) vs Model.stats_update
+    srng = __import__('random').Random(ctx.seed + 91)
+    n_stats_seq = 0
+    for _ in range(ctx.scale(30, 300)):
+        calls = [(srng.random() < 0.5, srng.choice([[], [], [0xf3], [0xf7, 1, 40], [0x50, 1], [0x2c]]), srng.choice(IDLE_DTS))
+                 for _ in range(srng.randrange(1, 30))]
+        flags, counters = c01_radio.stats_counters_run(calls)
+        cl = '; '.join('(%s, %s, %s)' % (_b(o), _zl(d), _b(f)) for (o, d, _), f in zip(calls, flags))
+        pterms.append('match stats_run stats_update [%s] stats0 with Some s => [st_up s; st_nup s; st_down s; st_ndown s] '
+                      '| None => [-1] end' % cl)
+        pexp.append(counters)
+        n_stats_seq += 1
+    dist['statistics_call_sequences'] = n_stats_seq
     zr = 'Fixpoint zr (a : Z) (n : nat) : list Z := match n with O => [] | S k => a :: zr (a + 1) k end.\n'
     pv = coqrun.eval_terms(DG_HEADER + zr, ['dg (%s)' % t for t in pterms], tag='c01p', shard=200)
     for k, (d, e) in enumerate(zip(pv, pexp)):
@@ -1169,7 +1246,10 @@ def oracle(ctx, deep=False):
                     if f2:
                         f = f2[0]
                 except Exception:
-                    pass
+                    import traceback
+                    if f['class'] == 'radio_loop_raised':     # the smaller script still kills the loop
+                        f = dict(f, case={k: v for k, v in small.items() if k != 'family'},
+                                 observed=traceback.format_exc()[-600:])
             fails.append(f)
     return {'evaluations': n, 'failures': fails,
             'rule': 'on every scripted session of the real loop: accepted == received-by-peer (+ <= 2 pending, none after the '
